@@ -67,7 +67,9 @@ def _history_case(draw, tier):
             extra.append(["sweep", 0, max(1, cfg["grid"] // (n + 2)), n])
     pos = draw(st.integers(0, len(ops)))
     ops = ops[:pos] + extra + ops[pos:]
-    return {"kind": "history", "cfg": cfg, "ops": ops}
+    return {"kind": "history", "cfg": cfg, "ops": ops,
+            # a second live Brownian object (same configuration, another entropy) answering the same queries alternately
+            "twin": draw(st.sampled_from([False, False, True]))}
 
 
 @st.composite
@@ -89,7 +91,9 @@ def _sweep_case(draw, tier):
         n = min(n, 3000)
         back = True
     return {"kind": "sweep", "cfg": cfg, "n": n, "back": back,
-            "frac": draw(st.sampled_from([1.0, 1.0, 0.5, 0.1]))}
+            "frac": draw(st.sampled_from([1.0, 1.0, 0.5, 0.1])),
+            # "backward only": the steps are taken from the far end towards t0 (a reverse-time solve on a fresh object)
+            "backward_only": draw(st.sampled_from([False, False, True]))}
 
 
 @st.composite
@@ -186,7 +190,7 @@ def _classify(e, where_sig):
 _MAX_SEARCH = [0]
 
 
-def _run_queries(cfg, queries, sig):
+def _run_queries(cfg, queries, sig, twin=False):
     """Returns (fail_or_None, checks, max_nodes_per_call, max_cache)."""
     import torchsde
     cs = cfg["cache_size"]
@@ -197,11 +201,20 @@ def _run_queries(cfg, queries, sig):
         max_search = _MAX_SEARCH
         try:
             bm, interval, meta = history.build(cfg, torchsde, torch)
+            bm_twin = interval_twin = None
+            if twin:
+                bm_twin, interval_twin, _ = history.build(dict(cfg, entropy=cfg["entropy"] + 1), torchsde, torch)
         except Exception as e:  # noqa
             return _classify(e, dict(sig, phase="constructor")), checks, max_nodes, max_cache
         for idx, (a, b) in enumerate(queries):
             try:
                 out = bm(a, b)
+                if bm_twin is not None:
+                    bm_twin(a, b)
+                    n2 = _cache_len(interval_twin)
+                    if cs is not None and n2 > cs:
+                        return Fail("cache_bound", f"cache of the second object holds {n2} entries > cache_size={cs} after "
+                                                   f"query #{idx}", sig), checks, max_nodes, max_cache
             except Exception as e:  # noqa
                 f = _classify(e, dict(sig, phase="query"))
                 f.msg += f" at query #{idx} ({a!r}, {b!r}) of {len(queries)}"
@@ -240,9 +253,15 @@ def run_case(case):
             nd = history.ndigits_of(cfg["tol"])
             pts = [round(p, nd) for p in pts]
         queries = [(pts[k], pts[k + 1]) for k in range(n)]
+        if case.get("backward_only"):
+            queries = queries[::-1]
         if case["back"]:
             queries = queries + queries[::-1]
-    fail, checks, max_nodes, max_cache = _run_queries(cfg, queries, sig)
+        if case.get("wide", True):
+            # and finally intervals spanning everything that was stepped through (one query over a long spine of small
+            # pieces), from both ends
+            queries = queries + [(pts[0], pts[-1]), (pts[0], pts[len(pts) // 2]), (pts[len(pts) // 3], pts[-1])]
+    fail, checks, max_nodes, max_cache = _run_queries(cfg, queries, sig, twin=bool(case.get("twin")))
     tol = cfg["tol"]
     iv = [(a, b) for a, b in queries if a is not None]
     subtol = any(0 < b - a < tol for a, b in iv) if tol > 0 else any(0 < b - a < 1e-12 for a, b in iv)
@@ -257,6 +276,10 @@ def run_case(case):
         labels.append("sub_tolerance_query")
     if len(queries) > 150:
         labels.append("past_warmup")
+    if case.get("twin"):
+        labels.append("two_live_objects_alternating")
+    if case.get("backward_only"):
+        labels.append("backward_only_sweep")
     nontrivial = len(queries) > 150 or subtol or cfg["cache_size"] in (0, 1)
     return Result(nontrivial=nontrivial, labels=labels, checks=checks, fail=fail,
                   metrics={"max_nodes_created_per_call": max_nodes, "max_cache_entries": max_cache,
